@@ -358,6 +358,12 @@ class CallMixin:
         elif isinstance(m, ast.Call) and isinstance(m.func, ast.Name) and m.func.id == 'all_but':
             keep = set('f:' + x for x in self.all_but_names(m))
             keep.add('$cls')
+            # kept arrays keep their pre-call value: materialise them before the epoch changes
+            for nm in keep:
+                if nm.startswith('f:'):
+                    harr(p, nm, A1(Val))
+                elif nm in SPECIAL:
+                    harr(p, nm)
             # arrays first touched after this point denote the post-call heap, not the entry heap
             p.epoch = Path.fresh_name('e').split('!')[1]
             for nm in list(p.heap):
@@ -368,7 +374,7 @@ class CallMixin:
                     p.assume(n >= p.heap['$next'])
                     p.heap['$next'] = n
                 elif nm == '$cblog':
-                    p.heap['$cblog'] = fresh('hv_cblog', z3.SeqSort(CbCall))
+                    pass      # user callbacks are only havocked by an explicit callbacks() clause
                 else:
                     p.heap[nm] = fresh('hv_' + nm.replace(':', '_').replace('$', ''), p.heap[nm].sort())
         else:
@@ -675,13 +681,13 @@ class CallMixin:
 
     def sp_cb_unchanged(self, node, p, fc):
         env, heap, epoch = fc.old
-        old = heap.get('$cblog', z3.Const('H%s_$cblog' % epoch, z3.SeqSort(CbCall)))
+        old = heap.get('$cblog', z3.Const('H0_$cblog', z3.SeqSort(CbCall)))
         return [Res(p, VBool(self._cblog(p) == old))]
 
     def sp_cb_appended(self, node, p, fc):
         """cb_appended(f, a0, ..): exactly one user callback was made by this call: f(a0, ..)"""
         env, heap, epoch = fc.old
-        old = heap.get('$cblog', z3.Const('H%s_$cblog' % epoch, z3.SeqSort(CbCall)))
+        old = heap.get('$cblog', z3.Const('H0_$cblog', z3.SeqSort(CbCall)))
         vs = [self.ev(a, p, fc)[0].v for a in node.args]
         vals = [to_val(v) for v in vs[1:]]
         n = len(vals)
